@@ -90,6 +90,11 @@ type scanEngine struct {
 	mu       sync.Mutex
 	stats    map[string]int
 	lazy     int
+	// E-DRV: the same Floyd/Houdini machinery over the LR driver
+	drv        *driver
+	prefix     string              // obligation name prefix
+	structRef  map[*ssa.Alloc]*Term // struct-typed entry locals
+	alwaysFull bool                // every obligation is checked with the full (quantified) context
 }
 
 func buildNaiveLex(w *World) (*ssa.Function, error) {
@@ -209,6 +214,7 @@ func newScanEngine(w *World, props []string) (*scanEngine, error) {
 			se.locals[a.Comment] = a
 		}
 	}
+	se.prefix = "internal/scanner.(*Lexer).Lex"
 	// allocs outside the entry block would need fresh cells per execution: only the entry block may have them
 	for _, b := range fn.Blocks[1:] {
 		for _, in := range b.Instrs {
@@ -460,7 +466,17 @@ func (se *scanEngine) binds(x *Exec, st *State, entryLex Val) binds {
 		b[name] = TV{x.loadQuiet(st, p), p.T}
 	}
 	if entryLex != nil {
-		b["lex"] = TV{entryLex, se.fn.Params[0].Type()}
+		b[se.fn.Params[0].Name()] = TV{entryLex, se.fn.Params[0].Type()}
+	}
+	for a, r := range se.structRef {
+		if a.Comment != "" {
+			b[a.Comment] = TV{r, a.Type()}
+		}
+	}
+	if se.drv != nil {
+		for k, v := range se.drv.tableBinds() {
+			b[k] = v
+		}
 	}
 	return b
 }
@@ -471,8 +487,12 @@ func (se *scanEngine) execRegion(c *scanCut) (r *scanRegion) {
 	x.lite = true
 	x.Sc.memo = map[string]*Term{}
 	x.Sc.scoped = true
-	x.Prefix = "internal/scanner.(*Lexer).Lex"
+	x.Prefix = se.prefix
 	x.Sc.Name = "Lex." + c.name
+	if se.drv != nil {
+		x.Sc.Name = se.drv.name + ".Parse." + c.name
+		se.drv.setup(se, x)
+	}
 	x.mapFn = se.w.mapCallee
 	r.x = x
 	defer func() {
@@ -486,6 +506,9 @@ func (se *scanEngine) execRegion(c *scanCut) (r *scanRegion) {
 	}()
 	alloc0 := x.allocInit()
 	x.Sc.Assert(tGe(alloc0, mkInt(int64(len(se.localPtr)+2))))
+	if se.drv != nil {
+		x.Sc.Assert(tGe(alloc0, mkInt(se.drv.localTop+2)))
+	}
 	st := &State{Guard: tTrue, Heap: map[string]*Term{}, Alloc: alloc0}
 	fc := &frameCtx{fn: se.fn, env: map[ssa.Value]Val{}, params: map[string]TV{}, outSt: map[*ssa.BasicBlock]*State{}, edgeC: map[[2]int]*Term{}, top: true, loops: map[*ssa.BasicBlock]*loopInfo{}}
 	fc.entry = st
@@ -493,6 +516,9 @@ func (se *scanEngine) execRegion(c *scanCut) (r *scanRegion) {
 		if a, ok := v.(*ssa.Alloc); ok {
 			if p, ok := se.localPtr[a]; ok {
 				return p
+			}
+			if r, ok := se.structRef[a]; ok {
+				return r
 			}
 		}
 		se.mu.Lock()
@@ -517,10 +543,29 @@ func (se *scanEngine) execRegion(c *scanCut) (r *scanRegion) {
 	if isEntry {
 		entryLex = x.freshVal(st, "p_lex", se.fn.Params[0].Type())
 		fc.env[se.fn.Params[0]] = entryLex
-		fc.params["lex"] = TV{entryLex, se.fn.Params[0].Type()}
+		fc.params[se.fn.Params[0].Name()] = TV{entryLex, se.fn.Params[0].Type()}
+		for _, p := range se.fn.Params[1:] {
+			v := x.freshVal(st, "p_"+p.Name(), p.Type())
+			fc.env[p] = v
+			fc.params[p.Name()] = TV{v, p.Type()}
+		}
 	}
 	// assume the cut's candidates under enable flags; at function entry, Lex's precondition
 	b := se.binds(x, st, entryLex)
+	if isEntry {
+		for n, tv := range fc.params {
+			b[n] = tv
+		}
+	}
+	if isEntry && se.drv != nil {
+		// ghost: the driver's own count of Error calls starts at zero
+		h := x.heapGet(st, "G:ghost.errcalls", SArrII)
+		x.heapSet(st, "G:ghost.errcalls", tStore(h, mkInt(0), mkInt(0)))
+		b = se.binds(x, st, entryLex)
+		for n, tv := range fc.params {
+			b[n] = tv
+		}
+	}
 	if isEntry && se.con != nil {
 		for _, rq := range se.con.Requires {
 			for _, cj := range conjuncts(x.evalBool(fc, st, rq, b)) {
@@ -547,12 +592,14 @@ func (se *scanEngine) execRegion(c *scanCut) (r *scanRegion) {
 			}
 		}
 	}
+	if se.drv == nil {
 	x.onCall = func(cst *State, callee *ssa.Function, args []Val) {
 		if callee.Name() == "Append" && strings.HasSuffix(funcPkgPath(callee), "internal/scanner") && len(args) == 2 {
 			if t, ok := args[1].(*Term); ok {
 				wk.lastAppend = t
 			}
 		}
+	}
 	}
 	wk.walk(c.block, st, 0)
 	return r
@@ -587,6 +634,20 @@ func (wk *scanWalker) walk(b *ssa.BasicBlock, st *State, depth int) {
 	}
 	x.execBlock(fc, b, st)
 	if st.Guard.isFalse() {
+		return
+	}
+	if se.drv != nil && b == se.drv.dispatch {
+		// the action switch: abstracted by its frame, control continues at the post-switch block
+		se.drv.abstractActions(wk, st)
+		s := se.drv.done
+		x.Sc.PushScope()
+		if tc := se.cuts[s]; tc != nil {
+			wk.r.nPaths++
+			wk.atCut(tc, st.clone(), fmt.Sprintf("%s->%s", labelOf(b), tc.name))
+		} else {
+			wk.walk(s, st.clone(), depth+1)
+		}
+		x.Sc.PopScope()
 		return
 	}
 	if len(fc.rets) > nret {
@@ -796,13 +857,9 @@ func (wk *scanWalker) atCut(tc *scanCut, st *State, edge string) {
 	x, fc, se := wk.x, wk.fc, wk.se
 	wk.r.targets[tc] = true
 	b := se.binds(x, st, nil)
-	// `lex` in a candidate is the local variable (a cell in naive form)
-	saved := fc.params["lex"]
-	delete(fc.params, "lex")
-	if a, ok := se.locals["lex"]; ok {
-		p := se.localPtr[a]
-		b["lex"] = TV{x.loadQuiet(st, p), p.T}
-	}
+	// a parameter named in a candidate is the local variable (a cell in naive form)
+	saved := fc.params
+	fc.params = map[string]TV{}
 	for _, cd := range tc.cands {
 		t := x.evalBool(fc, st, cd.expr, b)
 		o := &Obligation{Name: fmt.Sprintf("%s/inv/%s:%s@%s", x.Prefix, tc.name, cd.src, edge), Class: "inv", Props: se.props, Goal: tImp(st.Guard, t)}
@@ -812,21 +869,15 @@ func (wk *scanWalker) atCut(tc *scanCut, st *State, edge string) {
 		x.Sc.AddObligation(o)
 		wk.r.edges = append(wk.r.edges, scanEdgeObl{target: tc, cand: cd, obl: len(x.Sc.Obls) - 1})
 	}
-	if saved.V != nil {
-		fc.params["lex"] = saved
-	}
+	fc.params = saved
 }
 
 func (wk *scanWalker) atReturn(ret retInfo, from *ssa.BasicBlock) {
 	x, fc, se := wk.x, wk.fc, wk.se
 	st := ret.st
 	b := se.binds(x, st, nil)
-	if a, ok := se.locals["lex"]; ok {
-		p := se.localPtr[a]
-		b["lex"] = TV{x.loadQuiet(st, p), p.T}
-	}
-	saved := fc.params["lex"]
-	delete(fc.params, "lex")
+	saved := fc.params
+	fc.params = map[string]TV{}
 	fc.result = ret.val
 	b["result"] = TV{ret.val, se.fn.Signature.Results().At(0).Type()}
 	var posts []*CExpr
@@ -838,9 +889,7 @@ func (wk *scanWalker) atReturn(ret retInfo, from *ssa.BasicBlock) {
 		t := x.evalBool(fc, st, e, b)
 		x.oblige(st, fmt.Sprintf("post:%d", k), wk.lastLabel+":"+e.String(), se.fn.Pos(), t, nil)
 	}
-	if saved.V != nil {
-		fc.params["lex"] = saved
-	}
+	fc.params = saved
 }
 
 // ---------------------------------------------------------------------------
@@ -993,6 +1042,10 @@ func (se *scanEngine) solveRegion(r *scanRegion, only map[int]bool, timeoutMs in
 		}
 	}
 	sort.Ints(qfIdx)
+	if se.alwaysFull {
+		fullIdx = append(fullIdx, qfIdx...)
+		qfIdx = nil
+	}
 	res := se.runChunks(r, qfIdx, timeoutMs, sem, true)
 	for _, i := range qfIdx {
 		if res[i] != "unsat" && retry != nil && retry(r.x.Sc.Obls[i]) {
